@@ -26,16 +26,24 @@ from .. import core, build_repo
 
 ID = "C09"
 LEVEL = "proof"
-RULE = ("cases = (platform, language, operator, operand type tuple): EVERY built-in and file platform x {C, C++} x every "
+RULE = ("cases = (a) (platform, language, operator, operand type tuple): EVERY built-in and file platform x {C, C++} x every "
         "ordered pair of the 15 standard arithmetic types x every binary operator / ?: plus every unary operator and cast "
-        "(exhaustive, not sampled); non-trivial = the operator is not a cast or assignment (whose result is an operand type "
-        "by definition) i.e. a conversion rule is exercised")
-EXPLANATION = ("Proved in Lean for every consistent platform shape, both languages, all 15 arithmetic operand types: the code's operator "
-               "typing equals C17 6.3.1.1/6.3.1.8/6.5.x resp. C++17 [expr] outside the explicit classes K1..K5 (each with proved "
+        "(exhaustive, not sampled; operands are declared variables, depth 1); non-trivial = the operator is not a cast or "
+        "assignment (whose result is an operand type by definition) i.e. a conversion rule is exercised; (b) integer literals "
+        "(boundary grid + seeded values x dec/oct/hex/bin x suffix spellings), non-trivial = suffixed or >= 2^15; (c) seeded "
+        "random expression TREES of depth 1-4 over variables and integer literals (all node kinds, every platform, both "
+        "languages), non-trivial = depth >= 2; (d) character-literal probes")
+EXPLANATION = ("Scope of the proof: expressions built from variables of the 15 standard arithmetic types and integer literals with the "
+               "unary, binary, assignment, ?: and C-cast operators, to ANY nesting depth (typeOf_eq_spec_partial: structural induction over "
+               "expression trees; the type the model attaches to the root = the C17/C++17 type of the whole expression whenever every "
+               "node is well-typed and outside K1..K6), for every platform with ordered sizes and both languages. Per node: the code's "
+               "operator typing equals C17 6.3.1.1/6.3.1.8/6.5.x resp. C++17 [expr] outside the explicit classes K1..K5 (each with proved "
                "counterexample, each reproduced on the real code = findings F9a..F9e), and integer-literal typing equals 6.4.4.1p5 for "
                "every value outside K6 (octal literals, F9f). Tie: platform table by translator (fail closed) + EXHAUSTIVE in-process "
-               "correspondence of the model with the real Tokenizer/SymbolDatabase over the whole finite table; spec validated "
-               "against clang for 16 targets (thorough). Outside the model: pointer/array/container/record/enum/bit-field operands, "
+               "correspondence of the per-node model with the real Tokenizer/SymbolDatabase over the whole finite depth-1 table + "
+               "SAMPLED correspondence of the tree fold (that the code is compositional: seeded depth 1-4 trees on every platform; this "
+               "step is tested, not proved, the code's recursion through astParent() is not modelled); spec validated against clang for "
+               "16 targets incl. nested trees (thorough). NOT covered (the property's 'enum and pointer operands' among them):  pointer/array/container/record/enum/bit-field operands, "
                "wchar_t/char16_t/char32_t/char8_t, unary plus (removed by the tokenizer), the comma operator, sizeof/alignof result "
                "types, floating literal and character literal types (probed only), user-defined suffixes, i64 suffixes, "
                "platforms given as Type::Unspecified for literals (suffix-only typing, not compared with the language).")
@@ -45,7 +53,8 @@ THEOREMS = ["Cppcheck.C09." + t for t in (
     "promotion_counterexample promotion_fixed shift_takes_left_type shift_fixed comparison_yields_int_or_bool "
     "lnot_yields_int_or_bool comparison_c_counterexample assignment_keeps_left_type cast_takes_target_type incdec_partial "
     "incdec_fixed ternary_partial_different ternary_partial_same ternary_counterexample ternary_fixA_different ternary_fixed "
-    "literal_type_partial literal_octal_deviates platforms_maxima_ordered literal_counterexample_oct literal_hex_window_closed").split()]
+    "literal_type_partial literal_octal_deviates platforms_maxima_ordered literal_counterexample_oct literal_hex_window_closed "
+    "node_bin node_un node_tern node_lit typeOf_eq_spec_partial typeOf_eq_spec_partial_table typeOf_counterexample").split()]
 MODULES = ["Cppcheck.Props.C09"]
 
 TYPES = ["bool", "char", "schar", "uchar", "short", "ushort", "int", "uint", "long", "ulong", "llong", "ullong", "float", "double", "ldouble"]
@@ -485,6 +494,8 @@ def expr_text(op, name):
         return "%s a; %s b; (%s)" % (spell(f[3], f[2]), spell(f[4], f[2]), e)
     if f[0] == "lit":
         return lit_spelling(f[3], int(f[4]), int(f[5]), int(f[6]), int(f[7]))
+    if f[0] == "expr":
+        return " ".join(f[3:])
     if name.startswith("cast_"):
         e = "(%s)a" % spell(name[5:], f[2])
     else:
@@ -546,10 +557,10 @@ def report(res, devs, origin):
             seen.add(d["key"])
         f = d["op"].split()
         res.violation("%s: --platform=%s, %s: `%s` is typed %s by cppcheck, the language gives %s%s" %
-                      (origin, f[1], "C" if f[2] == "c" else "C++", expr_text(d["op"], d["name"]) if d["name"] != "*" else d["op"], d["impl"], d["spec"],
+                      (origin, f[1], "C" if f[2] == "c" else "C++", d.get("text") or (expr_text(d["op"], d["name"]) if d["name"] != "*" else d["op"]), d["impl"], d["spec"],
                        "" if d["key"] else " (outside every known class)"),
                       dict(op=d["op"], name=d["name"], impl=d["impl"], spec=d["spec"], klass=d["key"],
-                           program=("void f(void) { (void)(%s); }" % d["text"]) if d["op"].startswith("lit") else op_program(d["op"])[0],
+                           program=d.get("program") or (("void f(void) { (void)(%s); }" % d["text"]) if d["op"].startswith("lit") else op_program(d["op"])[0]),
                            replay_cmd="./check.py C09 --replay <this file>"),
                       concrete=True, key=d["key"])
 
@@ -625,7 +636,7 @@ def literal_devs(ctx, res, drv, exe, groups, tie, count):
             if count:
                 res.case("literal|" + desc, bool(c[3] >= (1 << 15) or c[1] or c[2]),
                          dict(tie=tie, op=desc, impl=got, model=conv, spec=spec) if j % 9000 == 11 else None)
-                res.count("literal:" + c[0])
+                res.count("literal:" + ("bin" if sp.startswith("0b") else c[0]))
             if got != conv:
                 mism.append((desc, got, conv))
             if plat != "unspecified" and spec != "none" and got != spec:
@@ -649,6 +660,160 @@ def lit_group(op):
     return (f[1], f[2], [(f[3], int(f[4]), int(f[5]), int(f[6]), int(f[7]))])
 
 
+# ------------------------------------------------------------------------------------------------------------
+# nested expressions (the tree theorem's tie): depth 2-4 trees over variables and integer literals
+# ------------------------------------------------------------------------------------------------------------
+KCLS = {"k1": "uac-rank-not-size", "k2": "promotion-unsigned-fills-int", "k3": "c-boolean-typed-bool", "k4": "incdec-promoted",
+        "k5": "ternary-same-enum-type", "k6": "literal-octal-as-decimal"}
+ASSIGN = [o for o in BINOPS if o == "assign" or o.endswith("A")]
+NONASSIGN = [o for o in BINOPS if o not in ASSIGN]
+
+
+def gen_leaf(rng):
+    if rng.random() < 0.25:
+        v = rng.choice([0, 1, 2, 5, 127, 255, 65535, 65536, 2147483647, 2147483648, 4294967295, 4294967296, rng.getrandbits(rng.choice([8, 31, 33, 63]))])
+        return ("l", rng.choice(["dec", "dec", "hex", "oct"]), rng.choice([0, 0, 1]), rng.choice([0, 0, 0, 1, 2]), v, rng.randrange(16))
+    ints = [t for t in TYPES if not is_float(t)]
+    return ("v", rng.choice(TYPES) if rng.random() < 0.12 else rng.choice(ints))
+
+
+def gen_tree(rng, depth):
+    if depth == 0:
+        return gen_leaf(rng)
+    k = rng.random()
+    if k < 0.12:
+        op = rng.choice(["neg", "bnot", "lnot", "neg", "bnot"])
+        return ("u", op, gen_tree(rng, depth - 1))
+    if k < 0.17:
+        return ("u", rng.choice(sorted(INCDEC)), ("v", rng.choice([t for t in TYPES if t != "bool"])))
+    if k < 0.25:
+        return ("c", rng.choice(TYPES), gen_tree(rng, depth - 1))
+    if k < 0.40:
+        return ("t", gen_tree(rng, rng.randrange(depth)), gen_tree(rng, depth - 1), gen_tree(rng, rng.randrange(depth)))
+    if k < 0.47:
+        return ("b", rng.choice(ASSIGN), ("v", rng.choice(TYPES)), gen_tree(rng, depth - 1))
+    a, b = gen_tree(rng, depth - 1), gen_tree(rng, rng.randrange(depth))
+    if rng.random() < 0.5:
+        a, b = b, a
+    return ("b", rng.choice(NONASSIGN), a, b)
+
+
+def tree_tokens(t):
+    if t[0] == "v":
+        return ["v:" + t[1]]
+    if t[0] == "l":
+        return ["l:%s:%d:%d:%d" % (t[1], t[2], t[3], t[4])]
+    if t[0] == "u":
+        return ["u:" + t[1]] + tree_tokens(t[2])
+    if t[0] == "b":
+        return ["b:" + t[1]] + tree_tokens(t[2]) + tree_tokens(t[3])
+    if t[0] == "t":
+        return ["t"] + tree_tokens(t[1]) + tree_tokens(t[2]) + tree_tokens(t[3])
+    return ["c:" + t[1]] + tree_tokens(t[2])
+
+
+def tree_render(t, lang, params, prefix):
+    """fully parenthesised C text; every variable leaf becomes a parameter of its own"""
+    if t[0] == "v":
+        n = "%s%d" % (prefix, len(params))
+        params.append("%s %s" % (spell(t[1], lang), n))
+        return n
+    if t[0] == "l":
+        return lit_spelling(t[1], t[2], t[3], t[4], t[5])
+    if t[0] == "u":
+        return "(" + UNOPS[t[1]].replace("a", tree_render(t[2], lang, params, prefix)) + ")"
+    if t[0] == "b":
+        return "(%s %s %s)" % (tree_render(t[2], lang, params, prefix), BINOPS[t[1]], tree_render(t[3], lang, params, prefix))
+    if t[0] == "t":
+        return "(%s ? %s : %s)" % (tree_render(t[1], lang, params, prefix), tree_render(t[2], lang, params, prefix), tree_render(t[3], lang, params, prefix))
+    return "((%s)%s)" % (spell(t[1], lang), tree_render(t[2], lang, params, prefix))
+
+
+def tree_depth(t):
+    if t[0] in ("v", "l"):
+        return 0
+    return 1 + max(tree_depth(x) for x in t[1:] if isinstance(x, tuple))
+
+
+def parse_expr_line(o):
+    m = re.match(r"^root=(\S+)\|(\S+) K:ok=(\d),wt=(\d),cls=(\w+)$", o)
+    if not m:
+        raise core.CheckBroken("C09 driver expr line: " + o)
+    cs = m.group(1).split("/")
+    return dict(models=dict(zip(VARIANTS, cs)), spec=m.group(2), ok=m.group(3) == "1", wt=m.group(4) == "1", cls=m.group(5))
+
+
+def nested_devs(ctx, res, drv, exe, items, tie, count):
+    """items: (platform, language, tree).  Ill-typed trees are dropped (the driver says which).  One program per 30 trees."""
+    dops = ["expr %s %s %s" % (p, l, " ".join(tree_tokens(t))) for p, l, t in items]
+    rc, mout, merr = core.run_lines(drv, [], dops, timeout=900)
+    if len(mout) != len(dops):
+        raise core.CheckBroken("C09 driver (nested): %d lines for %d ops: %s" % (len(mout), len(dops), merr[-300:]))
+    info = [parse_expr_line(o) for o in mout]
+    keep = [i for i in range(len(items)) if info[i]["wt"]]
+    groups = {}
+    for i in keep:
+        groups.setdefault((items[i][0], items[i][1]), []).append(i)
+    hl, hidx = [], []
+    for (p, l), idx in groups.items():
+        for j in range(0, len(idx), 30):
+            part = idx[j:j + 30]
+            params, body = [], ""
+            for n, i in enumerate(part):
+                body += "(void)(%s);\n" % tree_render(items[i][2], l, params, "v%d_" % n)
+            prog = "void f(%s) {\n%s}\n" % (", ".join(params) if params else "void", body)
+            hl.append("%s %s %s" % (p, l, core.hx(prog)))
+            hidx.append(part)
+    rc, hout, herr = core.run_lines([exe, core.REPO], [], hl, timeout=900)
+    if len(hout) != len(hl):
+        raise core.CheckBroken("C09 harness (nested): %d lines for %d programs: %s" % (len(hout), len(hl), herr[-300:]))
+    mism, devs, n = [], [], 0
+    for part, o in zip(hidx, hout):
+        f = o.split()
+        good = f and f[0] == "ok" and len(f) - 1 == len(part)
+        for k, i in enumerate(part):
+            p, l, t = items[i]
+            got = f[1 + k] if good else "impl-error:" + o[:60]
+            inf = info[i]
+            params = []
+            text = tree_render(t, l, params, "a")
+            desc = "%s %s %s" % (p, l, text)
+            n += 1
+            if count:
+                res.case("nested|" + dops[i], tree_depth(t) >= 2,
+                         dict(tie=tie, op=desc, impl=got, model=inf["models"]["base"], spec=inf["spec"]) if n % 700 == 3 else None)
+                res.count("nested-depth:%d" % tree_depth(t))
+                res.count("nested-ok:%d" % inf["ok"])
+            if got != inf["models"]["base"]:
+                mism.append((desc, got, inf["models"]["base"]))
+            if got != inf["spec"]:
+                key = KCLS.get(inf["cls"]) if (not inf["ok"] and got == inf["models"]["base"]) else None
+                devs.append(dict(op=dops[i], name="root", impl=got, spec=inf["spec"], key=key, text=text,
+                                 program="void f(%s) { (void)(%s); }" % (", ".join(params) if params else "void", text)))
+                if count:
+                    res.count("deviation:" + (key or "UNCLASSIFIED"))
+    res.traces_validated += n - len(mism)
+    res.oblig("correspondence:" + tie, not mism, "correspondence",
+              "" if not mism else "%d of %d nested expressions differ from the fold of the per-node rules; first: %s impl=%s model=%s" %
+              (len(mism), n, mism[0][0], mism[0][1], mism[0][2]))
+    if count:
+        res.extra["nested_expressions"] = n
+    return devs
+
+
+def run_nested(ctx, res, drv, exe, names, thorough):
+    rng = ctx.rng
+    per = 400 if thorough else 70
+    items = []
+    for p in names:
+        if p == "unspecified":
+            continue        # literal leaves are typed from the suffix only there (outside the comparison with the language)
+        for l in ("c", "cpp"):
+            for _ in range(per):
+                items.append((p, l, gen_tree(rng, rng.choice([2, 2, 3, 3, 4]))))
+    return nested_devs(ctx, res, drv, exe, items, "nested-expressions", True)
+
+
 def load_corpus():
     p = os.path.join(core.VERIF, "corpus", "C09", "witnesses.json")
     return json.load(open(p)) if os.path.exists(p) else []
@@ -668,6 +833,15 @@ def run(ctx, res):
     drv = ctx.driver("drv_c09")
     exe = ctx.harness("c09")
     names = [n for n, _ in plats]
+    res.assumptions += [
+        "the real setValueType (re-entry through astParent(), typing of a parent when its last operand gets a type) computes the fold `typeOf` "
+        "of the per-node rules on nested expressions: tested on seeded depth 1-4 trees on every run, not proved",
+        "operands are of the 15 standard arithmetic types (variables) or integer literals; pointer, array, enum, record, bit-field, wchar_t "
+        "and charN_t operands are outside model, theorems and tie",
+        "the hand-written language spec is validated against clang only in the thorough tier and only for shapes clang has a target for "
+        "(no sizeof(int)==8, no 32-bit long long)",
+        "Platform::Type::Unspecified: literal typing is suffix-only and is not compared with the language",
+    ]
 
     # ---- corpus: the witnesses of the known classes and past disagreements run first -------------------------
     corpus = [c for c in load_corpus() if c["op"].split()[1] in names]
@@ -709,6 +883,24 @@ def run(ctx, res):
     ldevs = run_literals(ctx, res, drv, exe, lit_names, thorough)
     res.extra["literal_deviations_from_language"] = len(ldevs)
     report(res, ldevs, "integer literal")
+
+    # ---- character literals (audit M2): probes against the language's type, no model ----------------------------------
+    # C17 6.4.4.4p10: 'a' and 'ab' have type int; C++17 [lex.ccon]: 'a' char, 'ab' int; L'a' wchar_t in both.
+    # u'a' / U'a' / u8'a' are char16_t / char32_t / char8_t: ValueType has no such Type (it records originalTypeName and
+    # sizeof folds to 2 / 4 correctly), so the (type, sign) projection printed by the harness cannot express them: not probed.
+    want = {"c": ["int:s", "int:s", "wchar:x"], "cpp": ["char:x", "int:s", "wchar:x"]}
+    cprog = "void f(void) {\n(void)('a');\n(void)('ab');\n(void)(L'a');\n}\n"
+    cl = [(p_, l_) for p_ in names for l_ in ("c", "cpp")]
+    rc, cout, cerr = core.run_lines([exe, core.REPO], [], ["%s %s %s" % (p_, l_, core.hx(cprog)) for p_, l_ in cl])
+    cbad = ["%s %s: %s (language: %s)" % (p_, l_, o, " ".join(want[l_])) for (p_, l_), o in zip(cl, cout) if o.split()[1:] != want[l_]]
+    for (p_, l_), o in zip(cl, cout):
+        res.case("charlit|%s|%s" % (p_, l_), True)
+    res.oblig("probe:character-literal-types", len(cout) == len(cl) and not cbad, "probe", "; ".join(cbad[:3]))
+
+    # ---- nested expressions: the code must be the fold of the per-node rules (tree theorem) --------------------------
+    ndevs = run_nested(ctx, res, drv, exe, names, thorough)
+    res.extra["nested_deviations_from_language"] = len(ndevs)
+    report(res, ndevs, "nested expression")
 
     # ---- thorough: clang as second oracle for the SPEC -------------------------------------------------------------
     if thorough:
@@ -828,6 +1020,43 @@ def clang_oracle(ctx, res, drv):
             if other:
                 bad.append("%s: clang rejects the probe file: %s" % (lang, other[0][-200:]))
             res.count("clang-asserts:" + lang, len(ids))
+        # nested trees: `specOf` (the fold of the language rules) against the compiler's type of the whole expression
+        for lang in ("c", "cpp"):
+            trees = [gen_tree(ctx.rng, ctx.rng.choice([2, 3, 3, 4])) for _ in range(250)]
+            dops = ["expr %s %s %s" % (pname, lang, " ".join(tree_tokens(t))) for t in trees]
+            rc, mout, merr = core.run_lines(drv, [], dops)
+            if len(mout) != len(dops):
+                raise core.CheckBroken("C09 driver (clang oracle, nested): %d lines for %d ops" % (len(mout), len(dops)))
+            lines, ids = [], []
+            if lang == "cpp":
+                lines.append("template<class T> struct rr { typedef T t; }; template<class T> struct rr<T&> { typedef T t; };\n"
+                             "template<class A, class B> struct same { static const bool v = false; }; template<class A> struct same<A, A> { static const bool v = true; };")
+            for k, (t, o) in enumerate(zip(trees, mout)):
+                inf = parse_expr_line(o)
+                if not inf["wt"]:
+                    continue
+                params = []
+                text = tree_render(t, lang, params, "a")
+                ct = VT2C[inf["spec"]] or ("_Bool" if lang == "c" else "bool")
+                i = len(ids)
+                ids.append((text, inf["spec"]))
+                if lang == "c":
+                    lines.append('void g%d(%s) { _Static_assert(_Generic((%s), %s: 1, default: 0), "ID%d"); }' % (k, ", ".join(params) if params else "void", text, ct, i))
+                else:
+                    lines.append('void g%d(%s) { static_assert(same<rr<decltype((%s))>::t, %s>::v, "ID%d"); }' % (k, ", ".join(params), text, ct, i))
+            src = os.path.join(ctx.tmp, "c09_nprobe.%s" % ("c" if lang == "c" else "cpp"))
+            open(src, "w").write("\n".join(lines) + "\n")
+            cmd = ["clang" if lang == "c" else "clang++", "--target=" + target] + flags + \
+                  ["-std=c17" if lang == "c" else "-std=c++17", "-fsyntax-only", "-ffreestanding", "-w", "-ferror-limit=0", src]
+            rc, out, err = core.sh(cmd, timeout=600)
+            failed = set(int(x) for x in re.findall(r'"ID(\d+)"', err)) | set(int(x) for x in re.findall(r"failed[^\n]*ID(\d+)", err))
+            other = [l for l in err.split("\n") if "error:" in l and "ID" not in l]
+            total += len(ids)
+            res.count("clang-nested-asserts:" + lang, len(ids))
+            for i in sorted(failed):
+                bad.append("%s nested: clang does not give `%s` the type %s" % (lang, ids[i][0], ids[i][1]))
+            if other:
+                bad.append("%s nested: clang rejects the probe file: %s" % (lang, other[0][-300:]))
         bad_total += len(bad)
         res.oblig("spec-vs-clang:%s" % tag, not bad, "oracle", "" if not bad else "%d disagreements; first: %s" % (len(bad), bad[0]))
     res.extra["clang_asserts"] = total
